@@ -6,7 +6,7 @@ use std::time::{Instant, Duration};
 use crate::constants::UsefulConstants;
 use crate::file_definition::FileID;
 use crate::ir::declarations::{Declaration, Declarations};
-use crate::ir::degree_meta::{DegreeEnvironment, Degree, DegreeRange};
+use crate::ir::degree_meta::{DegreeEnvironment, Degree, DegreeMeta, DegreeRange};
 use crate::ir::value_meta::ValueEnvironment;
 use crate::ir::variable_meta::VariableMeta;
 use crate::ir::{Expression, SignalType, Statement, VariableName, VariableType};
@@ -446,6 +446,7 @@ impl Cfg {
                 env.set_degree(param, &Constant.into());
             }
         }
+        let join_conditions = self.get_join_conditions();
         let mut rerun = true;
         let start = Instant::now();
         #[cfg(feature = "verif")]
@@ -460,8 +461,21 @@ impl Cfg {
             }
             // Rerun degree propagation if a single child node was updated.
             rerun = false;
-            for basic_block in self.iter_mut() {
-                rerun = rerun || basic_block.propagate_degrees(&mut env);
+            for index in 0..self.basic_blocks.len() {
+                if rerun {
+                    break;
+                }
+                // The phi expressions of the block have a degree only if all conditions which
+                // choose between the incoming paths are known to be constant.
+                let conditional_join = join_conditions[index].iter().any(|&header| {
+                    !matches!(
+                        self.basic_blocks[header].statements().last(),
+                        Some(Statement::IfThenElse { cond, .. })
+                            if cond.degree().is_some_and(DegreeRange::is_constant)
+                    )
+                });
+                env.set_conditional_join(conditional_join);
+                rerun = self.basic_blocks[index].propagate_degrees(&mut env);
             }
             // Bail out if analysis takes more than 10 seconds.
             if start.elapsed() > MAX_ANALYSIS_DURATION {
@@ -469,6 +483,40 @@ impl Cfg {
                 rerun = false;
             }
         }
+    }
+
+    /// For each basic block, returns the blocks ending in an if-statement which
+    /// lie on a path from the immediate dominator of the block to the block.
+    /// These are the conditions which choose between the predecessors of the
+    /// block, and hence between the arguments of its phi expressions.
+    fn get_join_conditions(&self) -> Vec<Vec<Index>> {
+        let mut result = Vec::new();
+        for basic_block in self.iter() {
+            let mut conditions = Vec::new();
+            let has_phi = basic_block
+                .iter()
+                .any(|stmt| matches!(stmt, Statement::Substitution { rhe: Expression::Phi { .. }, .. }));
+            if has_phi {
+                // All paths to the block pass through the immediate dominator. Walk
+                // backwards from the block until the immediate dominator is reached.
+                let dominator = self.dominator_tree.get_immediate_dominator(basic_block.index());
+                let mut visited = HashSet::new();
+                let mut work_list: Vec<_> = basic_block.predecessors().iter().cloned().collect();
+                while let Some(index) = work_list.pop() {
+                    if visited.insert(index) {
+                        let block = &self.basic_blocks[index];
+                        if matches!(block.statements().last(), Some(Statement::IfThenElse { .. })) {
+                            conditions.push(index);
+                        }
+                        if Some(index) != dominator {
+                            work_list.extend(block.predecessors().iter().cloned());
+                        }
+                    }
+                }
+            }
+            result.push(conditions);
+        }
+        result
     }
 
     /// Propagate constant values along the CFG.
